@@ -64,10 +64,12 @@ def _unpad_openssh(data):
     # At the moment, this is only used for unpadding private keys on disk. This
     # really ought to be made constant time (possibly by upstreaming this logic
     # into pyca/cryptography).
+    if not data:
+        raise SSHException("Invalid key")
     padding_length = data[-1]
     if 0x20 <= padding_length < 0x7F:
         return data  # no padding, last byte part comment (printable ascii)
-    if padding_length > 15:
+    if padding_length > 15 or padding_length > len(data):
         raise SSHException("Invalid key")
     for i in range(padding_length):
         if data[i - padding_length] != i + 1:
@@ -508,7 +510,12 @@ class PKey:
         return data
 
     def _read_private_key(self, tag, f, password=None):
-        lines = f.readlines()
+        try:
+            lines = f.readlines()
+        except UnicodeDecodeError as e:
+            raise SSHException(
+                "not a valid {} private key file: {}".format(tag, e)
+            )
         if not lines:
             raise SSHException("no lines in {} private key file".format(tag))
 
@@ -588,12 +595,19 @@ class PKey:
         cipher = self._CIPHER_TABLE[encryption_type]["cipher"]
         keysize = self._CIPHER_TABLE[encryption_type]["keysize"]
         mode = self._CIPHER_TABLE[encryption_type]["mode"]
-        salt = unhexlify(b(saltstr))
-        key = util.generate_key_bytes(md5, salt, password, keysize)
-        decryptor = Cipher(
-            cipher(key), mode(salt), backend=default_backend()
-        ).decryptor()
-        decrypted_data = decryptor.update(data) + decryptor.finalize()
+        # NOTE: a corrupt salt (not hex, wrong size) or ciphertext (not a
+        # multiple of the block size) makes these raise ValueError.
+        try:
+            salt = unhexlify(b(saltstr))
+            key = util.generate_key_bytes(md5, salt, password, keysize)
+            decryptor = Cipher(
+                cipher(key), mode(salt), backend=default_backend()
+            ).decryptor()
+            decrypted_data = decryptor.update(data) + decryptor.finalize()
+        except ValueError as e:
+            raise SSHException(
+                "Unable to decrypt private key file: {}".format(e)
+            )
         unpadder = padding.PKCS7(cipher.block_size).unpadder()
         try:
             return unpadder.update(decrypted_data) + unpadder.finalize()
@@ -634,7 +648,7 @@ class PKey:
             else:
                 raise SSHException(
                     "unknown cipher `{}` used in private key file".format(
-                        cipher.decode("utf-8")
+                        cipher.decode("utf-8", "replace")
                     )
                 )
             # Encrypted private key.
@@ -648,25 +662,33 @@ class PKey:
             # Unpack salt and rounds from kdfoptions
             salt, rounds = self._uint32_cstruct_unpack(kdf_options, "su")
 
-            # run bcrypt kdf to derive key and iv/nonce (32 + 16 bytes)
-            key_iv = bcrypt.kdf(
-                b(password),
-                b(salt),
-                48,
-                rounds,
-                # We can't control how many rounds are on disk, so no sense
-                # warning about it.
-                ignore_few_rounds=True,
-            )
-            key = key_iv[:32]
-            iv = key_iv[32:]
+            # NOTE: corrupt KDF options (empty salt, zero rounds) or a
+            # ciphertext that is not a multiple of the block size make
+            # these raise ValueError.
+            try:
+                # run bcrypt kdf to derive key and iv/nonce (32 + 16 bytes)
+                key_iv = bcrypt.kdf(
+                    b(password),
+                    b(salt),
+                    48,
+                    rounds,
+                    # We can't control how many rounds are on disk, so no
+                    # sense warning about it.
+                    ignore_few_rounds=True,
+                )
+                key = key_iv[:32]
+                iv = key_iv[32:]
 
-            # decrypt private key blob
-            decryptor = Cipher(
-                algorithms.AES(key), mode(iv), default_backend()
-            ).decryptor()
-            decrypted_privkey = decryptor.update(privkey_blob)
-            decrypted_privkey += decryptor.finalize()
+                # decrypt private key blob
+                decryptor = Cipher(
+                    algorithms.AES(key), mode(iv), default_backend()
+                ).decryptor()
+                decrypted_privkey = decryptor.update(privkey_blob)
+                decrypted_privkey += decryptor.finalize()
+            except ValueError as e:
+                raise SSHException(
+                    "Unable to decrypt private key file: {}".format(e)
+                )
         elif cipher == b("none") and kdfname == b("none"):
             # Unencrypted private key
             decrypted_privkey = privkey_blob
